@@ -18,7 +18,7 @@ ASSUMPTIONS = ["a script whose command raises leaves the chain failed and the co
 RULE = ("scripts of 1..6 commands x one fault at a random point of the conversation: connection refused, session refused by the server (3.3 / 3.7 / 3.8, reason possibly empty), authentication failed (3.3 / 3.8 with reason), unknown server message, "
         "clean close by the server before / in the middle of (also half way through an update, with a capture waiting) / after the script, reset (also while vncdo's own close is in progress), silence - each with and without --timeout T; non-trivial = distinct (script, fault, timeout)")
 
-FAULTS = ["none", "refused", "auth-failed", "server-refuses", "unknown-msg", "unknown-encoding", "lose-clean", "lose-clean", "lose-error", "silent", "silent-in-handshake"]
+FAULTS = ["none", "refused", "auth-failed", "server-refuses", "unknown-msg", "unknown-encoding", "lose-clean", "lose-clean", "lose-error", "silent", "silent-in-handshake", "lose-in-handshake"]
 
 
 def cmd_bounds_c09(words):
@@ -32,7 +32,11 @@ def cmd_bounds_c09(words):
 
 def play(r, spec, fault, at):
     if fault == "refused":
-        spec.events = [("connectfailed",)]
+        # the ways an endpoint reports that no connection could be made: refused, name does not resolve, connect timed out,
+        # no route, the generic ConnectError, a bare OSError (UNIX socket missing)
+        classes = ["ConnectionRefusedError", "DNSLookupError", "TCPTimedOutError", "NoRouteError", "ConnectError", "OSError"]
+        play.n_refused = getattr(play, "n_refused", r.randrange(6)) + 1          # every class in turn
+        spec.events = [("connectfailed", classes[play.n_refused % 6])]
         res = run_impl(spec)
         # with a timeout pending, let the timers run out
         return res
@@ -98,6 +102,9 @@ def play(r, spec, fault, at):
             return res
         finally:
             v.close()
+    if fault == "lose-in-handshake":
+        spec.lose_in_handshake = r.random() < .5
+        return drive(r, spec, faults=[], max_steps=40)
     if fault == "silent-in-handshake":
         spec.silent_in_handshake = True
         return drive(r, spec, faults=[], max_steps=40)
@@ -157,6 +164,9 @@ def run(ctx):
                 st, stopped = last["status"], last["stopped"]
             inp = {"words": spec.words, "delay": spec.delay, "warp": spec.warp, "timeout": spec.timeout, "fault": fault, "at_step": at,
                    "events": kinds[:40]}
+            if fault == "refused":
+                inp["endpoint_failure"] = spec.events[0][1]
+                ctx.count("connect_failure_" + spec.events[0][1])
             rp = {"input": inp, "how": "the real vncdo() in-process with a virtual clock; the fault is injected at the given step of the conversation; reactor.exit_status / reactor.stop are observed"}
             ctx.case({"words": spec.words, "fault": fault, "timeout": spec.timeout, "status": st, "completed": completed} if len(ctx.samples) < 3 and fault != "none" else None,
                      key=(repr(spec.words), fault, at, spec.timeout))
